@@ -54,8 +54,9 @@ def need(cond, msg):
 def _names(case):
     suffix = case["suffix"]
     inp = "song" + suffix
-    out = ("out" + suffix) if case["out"] else None
-    bak = (inp + ".old") if case["bak"] else None
+    # out == "alias": an output name that is a different string but names the input file itself -> the target is the input
+    out = ("out" + suffix) if case["out"] and case["out"] != "alias" else None
+    bak = (inp + case.get("bak_ext", ".old")) if case["bak"] else None
     return inp, out, bak
 
 
@@ -82,6 +83,9 @@ class Run:
         files = {self.inp: data}
         if case.get("bystanders"):
             files["other" + case["suffix"]] = b"#TITLE:bystander;\n"
+            for n in ff.tempish_names(self.inp, self.out):
+                if n not in (self.inp, self.out, self.bak):
+                    files[n] = b"#TITLE:do not touch " + n.encode() + b";\n"
         if self.out and case.get("pre_out"):
             files[self.out] = b"#TITLE:" + b"old output " * 30 + b";\n"
         if self.bak and case.get("pre_bak"):
@@ -134,10 +138,15 @@ class Run:
             kw.update(self.d.fs_kwargs())
         return self.simfile.mutate(
             self.d.path(self.inp),
-            output_filename=self.d.path(self.out) if self.out else None,
+            output_filename=self.d.path(self.out) if self.out else (self.alias_of_input() if self.case.get("out") == "alias" else None),
             backup_filename=self.d.path(self.bak) if self.bak else None,
             **kw,
         )
+
+    def alias_of_input(self):
+        p = self.d.path(self.inp)
+        head, sep, tail = p.rpartition("/")
+        return head + "/./" + tail if sep else "./" + p
 
     def apply(self, sf, ops):
         for op in ops:
@@ -446,14 +455,17 @@ def family_fsfault(run):
         # nothing was written by any means in the fault-free run (e.g. a library that skips an unchanged save):
         # there is no save sequence to inject faults into; whether skipping is acceptable is C05's subject
         return 0, ["family:fsfault", "fault-free-run-wrote-nothing"]
-    if run.target not in opened:
-        raise HarnessError(f"the recording filesystem saw no open-for-writing of the output file (calls: {log}); the wrapper does not observe how the library writes")
-    if run.bak and run.bak not in opened:
-        raise HarnessError(f"the recording filesystem saw no open-for-writing of the backup file (calls: {log})")
+    if run.target not in opened or (run.bak and run.bak not in opened):
+        # the library saves through a path the wrapper does not follow (e.g. a temporary file renamed over the target):
+        # the recorded calls are still failed one by one below, but only calls on the output / backup names can be
+        # attributed to a stage; nothing is concluded from the others beyond the generic judgement
+        labels_extra = ["save-path-not-directly-observable"]
+    else:
+        labels_extra = []
     run.others_untouched(before, after, "fault-free run through the recording filesystem")
 
     evals = 0
-    labels = ["family:fsfault", "calls:%d" % len(log)]
+    labels = ["family:fsfault", "calls:%d" % len(log)] + labels_extra
     for k, (op, name, size) in enumerate(log):
         variants = ["before"]
         if op == "write" and size >= 2:
@@ -550,11 +562,12 @@ def s_case(draw):
         "family": draw(st.sampled_from(["body", "unserialisable", "unencodable", "fsfault", "fsfault"])),
         "fs": draw(st.sampled_from(["mem", "native"])),
         "suffix": suffix,
-        "out": draw(st.booleans()),
+        "out": draw(st.sampled_from([False, False, True, True, "alias"])),
         "bak": draw(st.booleans()),
         "pre_out": draw(st.booleans()),
         "pre_bak": draw(st.booleans()),
         "bystanders": draw(st.booleans()),
+        "bak_ext": draw(st.sampled_from([".old", ".old", ".tmp", ".bak", "~"])),
         "errors": draw(st.sampled_from([None, None, None, None, "strict", "replace", "ignore", "surrogateescape", "backslashreplace", "xmlcharrefreplace"])),
         "encs": encs,
         "data": text.encode(enc).hex(),
